@@ -221,6 +221,22 @@ var checkHostile = register("c18.hostile", func(c HostileCase) (v *Violation) {
 		}
 	}
 	trimmed := strings.TrimSpace(c.Data)
+	if err == nil && trimmed != "null" {
+		// whatever was accepted is a value of the type: it survives its own JSON encoding
+		if mj, ok := val.(json.Marshaler); ok {
+			enc, merr := mj.MarshalJSON()
+			back, um2 := newOf(c.Kind)
+			if merr != nil {
+				return violf("UnmarshalJSON(%q) into a %s was accepted, but the value does not marshal: %v", c.Data, c.Kind, merr)
+			}
+			if uerr := um2.UnmarshalJSON(enc); uerr != nil {
+				return violf("UnmarshalJSON(%q) into a %s was accepted as %q, which marshals to %s, which the type does not read back: %v", c.Data, c.Kind, val.String(), enc, uerr)
+			}
+			if back.String() != val.String() {
+				return violf("UnmarshalJSON(%q) into a %s was accepted as %q, which marshals to %s and reads back as %q", c.Data, c.Kind, val.String(), enc, back.String())
+			}
+		}
+	}
 	if err == nil && !valid {
 		if trimmed == "null" {
 			return nil // a no-op on null is the encoding/json convention; an error is fine too
@@ -281,6 +297,9 @@ func hostileInputs() []string {
 		`"2015-08-01"`, `"12:34:56"`, `"12:34:56+01"`, `"12:34:56+01:00"`, `"12:34:56+01:00:00"`, `"12:34:56Z"`, `"2015-08-01T12:34:56"`, `"2015-08-01T12:34:56Z"`, `"2015-08-01T12:34:56+05:30"`, `"2015-08-01T12:34:56-05"`, `"2015-08-01T12:34:56+05:30:15"`,
 		`"2015-08-01 12:34:56"`, `"2015-08-01T12:34"`, `"12:34"`, `"12"`, `"+"`, `"-"`, `"+1"`, `"Z"`, `"12:00"`, `"1:2:3"`, `"2015-8-1"`, `"24:00:00"`, `"2015-13-01"`, `"2015-02-30"`, `"12:34:56.1234567891"`, `"12:34:56."`, `"12:34:56+"`, `"12:34:56+1"`, `"12:34:56+123"`,
 		` "2015-08-01"`, `"2015-08-01" `, "\"2015-08-01\"\n", `"2015-08-01""`, `""2015-08-01"`, "\x00", "\xff\xfe", `"2015-08-01"`, `"20150801"`, `"0000-00-00"`, `"9999-12-31T23:59:59.999999999+14:00"`, `"0001-01-01T00:00:00-12:00"`}
+	// zone displacements at and beyond what a time zone can have (Go's layouts let 24 hours and 60 minutes through)
+	out = append(out, `"12:34:56+24:60"`, `"12:34:56+05:60"`, `"12:34:56-24"`, `"12:34:56+16:00"`, `"12:34:56+23:59:60"`, `"12:34:56+15:59"`, `"12:34:56-15:59:59"`, `"12:34:56+15"`, `"12:34:56+16"`,
+		`"2015-08-01T12:34:56-24:60"`, `"2015-08-01T12:34:56+05:60"`, `"2015-08-01T12:34:56+15:59"`, `"2015-08-01T12:34:56-16:00"`, `"2015-08-01T12:34:56+24"`, `"2015-08-01T12:34:56+00:00:60"`)
 	// a quote at one end only, around text that would be a valid value: not a JSON string
 	for _, v := range []string{"2015-08-01", "12:34:56", "12:34:56+01:00", "2015-08-01T12:34:56", "2015-08-01T12:34:56+05:30"} {
 		out = append(out, `x`+v+`"`, `"`+v+`x`, v+`"`, `"`+v, `1`+v+`"`, `"`+v+`1`, `'`+v+`"`, `"`+v+`'`, v)
